@@ -297,6 +297,7 @@ pub fn qt_opts_record(case: &Value, n: u64, scratch: &std::path::Path) -> Value 
         ("no-fx", vec!["--account".into(), ".".into(), "--no-fx".into()]),
         ("security", vec!["--account".into(), ".".into(), "--security".into(), "^FOO$".into()]),
         ("account", vec!["--account".into(), "Margin".into()]),
+        ("account-anchored", vec!["--account".into(), "^Margin 111".into()]),
         ("no-sort", vec!["--account".into(), ".".into(), "--no-sort".into()]),
         ("usd-rate", vec!["--account".into(), ".".into(), "--usd-exchange-rate".into(), "1.3125".into()]),
     ];
